@@ -51,6 +51,19 @@ def lean_namespace(path):
     return m.group(1) if m else ''
 
 
+def import_closure(mods):
+    """files of this project transitively imported by the given modules"""
+    seen = {}; todo = list(mods)
+    while todo:
+        m = todo.pop()
+        if m in seen or not m.startswith('ClockBound'): continue
+        path = f"{LEAN}/{m.replace('.', '/')}.lean"
+        if not os.path.exists(path): continue
+        seen[m] = path
+        for imp in re.findall(r'^import\s+(\S+)', open(path).read(), re.M): todo.append(imp)
+    return sorted(seen.values())
+
+
 def proof_layer(pid, cfg, thorough):
     """returns dict(obligations, discharged, theorems, problems, checker_cmd)"""
     mods = cfg.get('lean_modules', [f'ClockBound.Properties.{pid}'])
@@ -62,13 +75,11 @@ def proof_layer(pid, cfg, thorough):
         problems.append({'kind': 'lake-build-failed', 'detail': bad or out[-2000:]})
         return dict(obligations=1, discharged=0, theorems=[], problems=problems,
                     checker_cmd='lake build ' + ' '.join(mods))
-    # forbidden tokens (outside comments) in every Lean source of the project
-    for dp, _, fs in os.walk(f'{LEAN}/ClockBound'):
-        for f in fs:
-            if f.endswith('.lean'):
-                src = stmts.strip_comments(open(os.path.join(dp, f)).read())
-                m = FORBIDDEN.search(src)
-                if m: problems.append({'kind': 'forbidden-token', 'file': os.path.join(dp, f), 'token': m.group(0)})
+    # forbidden tokens (outside comments) in every Lean source the property's modules depend on
+    for path in import_closure(mods + ['ClockBound.Model.Driver']):
+        src = stmts.strip_comments(open(path).read())
+        m = FORBIDDEN.search(src)
+        if m: problems.append({'kind': 'forbidden-token', 'file': path, 'token': m.group(0)})
     # theorems of the property modules
     names = []
     for mod in mods:
@@ -273,7 +284,9 @@ def check(pid, tier, seed):
             if k: known_hits.setdefault(k['id'], (k, c))
             else: fails.append(c)
         a, b = project(c)
-        if a != b: disagreements.append(c)
+        req = cfg.get('require')
+        if a != b or (req and any(k in c.verdicts and c.verdicts[k] != v for k, v in req.items())):
+            disagreements.append(c)
         for t in c.tags: dist[t] += 1
         dist['verdict:' + v] += 1
         if h not in seen:
